@@ -24,10 +24,24 @@ FINDINGS = {
 }
 
 
+def annotate(op, reply):
+    if op.startswith("lockc ") and reply.startswith("lockc "):
+        w = reply.split()
+        if len(w) > 2 and w[2] in ("acq", "cancel"):
+            return op + " " + w[2]
+    return op
+
+
 def spec_safety(rep):
     """mutual exclusion / liveness on the implementation's replies"""
     for op, line in zip(rep["ops"], rep["impl"]):
         w = dict(x.split("=", 1) for x in line.split() if "=" in x)
+        try:
+            if int(w.get("residual", "0")) > 0:
+                return ("after `%s` %s caller(s) whose Lock call returned an error are still queued (%s): nobody can "
+                        "unlock them, their keys stay locked and their queues can never be pruned" % (op, w["residual"], line))
+        except ValueError:
+            pass
         try:
             if int(w.get("holders", "0")) > 1:
                 return "after `%s` %s callers hold the same key at once (%s)" % (op, w["holders"], line)
@@ -61,7 +75,7 @@ def run(ctx):
     if K.build_hx(ctx) and K.build_drv(ctx):
         prune = "yes" if (facts.get("pruneVariant") == "yes" and facts.get("deleteCalls") not in ("0", "unknown")) else "no"
         args = ["prune=" + prune]
-        c = K.correspondence(ctx, "C28", args)
+        c = P.correspondence_observed(ctx, "C28", args, annotate)
         corrs.append(("C28", args, c))
     else:
         ctx.violation("harness does not build against the repository", {"correspondence": "C28", "log": getattr(ctx, "hx_log", "")[-2000:]},
